@@ -1443,22 +1443,40 @@ def o_change_shg(ctx, case):
         (freshA, mgrA, _) = fx.make_mc_generator(cfg, case['groups'], mcs, lts)
         objs = {0: (mgrA, case['groups']), 1: (mgr2, case['groups2'])}
 
+        KINDS = ('weight0', 'dec', 'weight', 'weight0', 'dec', 'weight')
+
         def desc(obj, ver):
-            """groups description of manager object `obj` after `ver` in-place replacements of its first source"""
+            """groups description of manager object `obj` after `ver` in-place replacements of its first source.  The k-th
+            replacement changes, in turn, what the candidates depend on besides the position: the source WEIGHT (to 0 when
+            another source of the group keeps a positive weight, else halved; or multiplied by 2.5) or the declination."""
             gs = [dict(G, sources=[tuple(x) for x in G['sources']]) for G in objs[obj][1]]
-            if ver > 0:
+            for k_ in range(1, ver + 1):
                 (ra0, dec0, w0) = gs[0]['sources'][0]
-                gs[0]['sources'][0] = (ra0, max(-1.4, min(1.4, dec0 + 0.11 * ver * (1 if dec0 < 0 else -1))), w0)
+                w0 = 1.0 if w0 is None else float(w0)
+                kind = KINDS[(k_ + obj) % len(KINDS)]
+                if kind == 'dec':
+                    dec0 = max(-1.4, min(1.4, dec0 + 0.11 * (1 if dec0 < 0 else -1)))
+                elif kind == 'weight':
+                    w0 = 2.5 * w0 if w0 > 0 else 1.5
+                else:
+                    others = [x for x in gs[0]['sources'][1:] if x[2] is None or x[2] > 0]
+                    w0 = 0.0 if (others and w0 > 0) else (0.5 * w0 if w0 > 0 else 1.0)
+                gs[0]['sources'][0] = (ra0, dec0, w0)
             return gs
         vals = {}
 
         def val(obj, ver):
+            """per-source mu2flux of a fresh generator on that content (nan = no candidate at all)"""
             if (obj, ver) not in vals:
                 try:
-                    vals[(obj, ver)] = float(fx.make_mc_generator(cfg, desc(obj, ver), mcs, lts)[0].mu2flux(2.0))
+                    vals[(obj, ver)] = np.asarray(
+                        fx.make_mc_generator(cfg, desc(obj, ver), mcs, lts)[0].mu2flux(2.0, per_source=True), dtype=np.float64)
                 except Exception:  # noqa  (no candidate at all for this content)
-                    vals[(obj, ver)] = float('nan')
+                    vals[(obj, ver)] = np.array([float('nan')])
             return vals[(obj, ver)]
+
+        def same(a_, b_):
+            return a_.shape == b_.shape and not np.any(np.isnan(b_)) and bool(np.allclose(a_, b_, rtol=1e-9, atol=0.0))
         hr = np.random.RandomState(case['seed'] % (2 ** 31))
         ops = [['u', 'c0', 'c1', 'm0', 'm1', 'm1'][int(x)] for x in hr.randint(0, 6, size=7)]
         if True:
@@ -1488,12 +1506,12 @@ def o_change_shg(ctx, case):
                         break
                     used.change_shg_mgr(objs[o_][0])
                     force = (o_, ver[o_])
-                v = float(used.mu2flux(2.0))
+                v = np.asarray(used.mu2flux(2.0, per_source=True), dtype=np.float64)
                 cands_ = [(o_, k_) for o_ in (0, 1) for k_ in range(ver[o_] + 1)]
-                if val(*force) != val(*force):
+                if np.any(np.isnan(val(*force))):
                     ok_ident = False                # the content in force has no candidates: nothing to identify
                     break
-                match = [c_ for c_ in cands_ if val(*c_) == val(*c_) and abs(v - val(*c_)) <= 1e-9 * abs(val(*c_))]
+                match = [c_ for c_ in cands_ if same(v, val(*c_))]
                 match = [force] if force in match else (match if len(match) == 1 else [(-1, -1)])
                 seen_.append(match[0])
                 want.append(force)
@@ -1507,7 +1525,7 @@ def o_change_shg(ctx, case):
                 CACHE_HIST.append((['c1'] + ops, [(1, 0)] + seen_, dict(case)))
                 if seen_ != want:
                     return ('history %r on one MCMultiDatasetSignalGenerator (c<k> = change_shg_mgr(manager object k), m<k> = first source '
-                            'of manager object k replaced in place, u = use; after every operation mu2flux is read): the generator works '
+                            'of manager object k replaced in place — other weight (incl. 0) or other declination —, u = use; after every operation the per-source mu2flux is read): the generator works '
                             'with the candidates of (object, content version) %r, in force are %r (stale candidates)' % (
                                 ops, seen_, want))
             else:
